@@ -10,7 +10,9 @@
 //   act    what T0 does with the task: 0 wait until every expected call has completed, then destroy it;
 //          1 cancel(), later destroy;   2 destroy (~TimedTask) without cancel()
 //   when   when T0 acts: 0 right after schedule() returned; 1 after sleeping until the scheduled time;
-//          2 as soon as the first call is inside the function; 3 as soon as the first call has returned
+//          2 as soon as the first call is inside the function; 3 as soon as the first call has returned;
+//          4 as soon as a kick-off has taken its run from timesToRun (the kicker is about to enter, or is inside, the
+//          task's wrapped function: one preemption away from every point of it)
 //          ('|' separates alternatives of when/act/fa; all combinations are explored via mc::choose)
 // Order of teardown: task, scheduler (stops its thread), pool.
 #include "mc_harness.h"
@@ -126,6 +128,12 @@ void timed_body(const mc::Params& P, Sched& sched) {
           mc::block_until([&] { return c.started.get() >= 1; });
         else if (when == 3)
           mc::block_until([&] { return c.finished.get() >= 1; });
+        else if (when == 4) {
+          auto* impl = task.impl_.get();
+          size_t n0 = (size_t)c.n;
+          mc::block_until([impl, n0] { return impl->timesToRun.a_.load(std::memory_order_relaxed) < n0; });
+          hcover("timed_act_at_kickoff");
+        }
         if (act == 1) {
           task.cancel();
           // same scheduler step as cancel()'s last operation
